@@ -205,21 +205,40 @@ Qed.
 
 (* non-vacuity: a diamond with two structurally equal parents sharing a
    child, bulk update, delete, forced update inside the diamond, collects and
-   a reset - every guard holds, for every node hash function *)
+   a reset - every guard holds *)
 Definition h_diamond : list op :=
   h_shared ++
   [OHash 3; OUpdate 2 [(na, 4); (nc, 0)]; OForce 1; OCollect 3; OCollect 3; ODel 2 na;
    OCollect 3; OReset 3; OCollect 3; OHash 3].
 
-Lemma guards_satisfiable : forall NH,
-  guarded NH true [] h_diamond /\
-  length (final NH true [] h_diamond) = 5 /\
+Lemma guards_satisfiable :
+  (forall d es, NH0 d es <> []) /\
+  guarded NH0 true [] h_diamond /\
+  length (final NH0 true [] h_diamond) = 5 /\
   (* before the delete: c has the two parents p2, p1, which are == and distinct *)
-  (let s := final NH true [] (firstn 10 h_diamond) in
+  (let s := final NH0 true [] (firstn 10 h_diamond) in
    (exists y, nth_error s 0 = Some y /\ parents y = [2; 1]) /\ node_eqb (S (length s)) s 1 2 = true).
 Proof.
-  intro NH. split; [apply (guarded_b_sound NH true cands0); vm_compute; reflexivity|].
+  split; [apply NH0_truthy|]. split; [apply (guarded_b_sound NH0 true cands0); vm_compute; reflexivity|].
   split; [vm_compute; reflexivity|]. split.
   - eexists. split; vm_compute; reflexivity.
   - vm_compute. reflexivity.
+Qed.
+
+(* C14: the identity is a legitimate set oracle (a set never merges a node away
+   in favour of itself); the diamond history above contains four collects and
+   a reset and reports at least 10 (representative, hash, node) triples *)
+Definition id_oracle : set_oracle := fun _ _ n => n.
+Lemma id_oracle_ok : oracle_ok id_oracle.
+Proof.
+  intros s L n Hin. unfold id_oracle. split; auto. split; auto.
+  simpl. rewrite Nat.eqb_refl. reflexivity.
+Qed.
+
+Lemma c14_satisfiable :
+  oracle_ok id_oracle /\ (forall d es, NH0 d es <> []) /\ guarded NH0 true [] h_diamond /\
+  10 <=? length (snd (grun NH0 true id_oracle [] [] h_diamond)) = true.
+Proof.
+  split; [apply id_oracle_ok|]. split; [apply NH0_truthy|].
+  split; [apply (guarded_b_sound NH0 true cands0); vm_compute; reflexivity|]. vm_compute. reflexivity.
 Qed.
